@@ -24,4 +24,10 @@ for id in $ids; do
   echo "| $id |$caught | $first |" >> $out
   echo "$id:$caught"
 done
-{ echo "| seeded change | quick checks that report a violation [sub-checks] | first report |"; echo "|---|---|---|"; cat $out; } > seeded/MATRIX.md; rm -f $out
+if [ -n "${APPEND:-}" ]; then
+  # APPEND=1: replace the rows of the given ids in the existing table (or add them), keep the rest
+  for id in $ids; do sed -i "/^| $id |/d" seeded/MATRIX.md; done
+  cat $out >> seeded/MATRIX.md; rm -f $out
+else
+  { echo "| seeded change | quick checks that report a violation [sub-checks] | first report |"; echo "|---|---|---|"; cat $out; } > seeded/MATRIX.md; rm -f $out
+fi
